@@ -233,6 +233,9 @@ class Simple:
         )
 
     def forward_basis(self):
+        if approx_equal(self.start, 0):
+            # empty forward space (e.g. empty language): avoid projecting onto a zero vector
+            return np.zeros((0, self.dim))
         worklist = [self.start]
         basis = [self.start]
         while worklist:
